@@ -161,6 +161,11 @@ theorem WInvX.sameCore {x : Option Nat} {w w' : World} (h : WInvX x w) (s : Same
     obtain ⟨pr2, a2, _, _, d2, _⟩ := hpr p pr' a'
     rw [a] at a2; injection a2 with a2; subst a2
     exact ⟨pr', a', by rw [d2]; exact b⟩
+  case connReqLive =>
+    rw [s.connReqs, s.fired]
+    intro p pr' cr c d hp' hcq
+    obtain ⟨pr, a, _, _, _, _, _, _, g, _⟩ := hpr p pr' hp'
+    exact h.connReqLive p pr cr c d a (by rw [← g]; exact hcq)
   case subArmed =>
     rw [s.ents]; intro e he hb ha; rw [(s.reqs e.rid).2.2] at ha
     obtain ⟨p, pr, a, b, c⟩ := h.subArmed e he hb ha
@@ -256,6 +261,7 @@ theorem dropArmed_inv {x : Option Nat} {w : World} (h : WInvX x w) {e : Ent} (he
   case connReqFresh => exact h.connReqFresh
   case connackOwned => intro t' cr hp; exact h.connackOwned t' cr ((hpending _ _).mp hp).1
   case retryLive => intro t' p rid hp; exact h.retryLive t' p rid ((hpending _ _).mp hp).1
+  case connReqLive => exact h.connReqLive
   case subArmed => intro y hy; exact h.subArmed y ((hmem y).mp hy).1
   case bufOk => exact h.bufOk
 
@@ -268,7 +274,8 @@ def fireD (w : World) (d : Nat) (o : Obs) : World := { w with fired := d :: w.fi
 
 theorem fireD_inv {x : Option Nat} {w : World} (h : WInvX x w) {d : Nat} (hd : d < w.nextDfd)
     (hfree : ∀ e ∈ w.ents, (w.req e.rid).dfd ≠ some d)
-    (hcr : ∀ t cr c, Pending w t (.connack cr) → w.connReqs.get? cr = some c → c.dfd ≠ some d) (o : Obs) :
+    (hcr : ∀ t cr c, Pending w t (.connack cr) → w.connReqs.get? cr = some c → c.dfd ≠ some d)
+    (hcl : ∀ p pr cr c, w.protos.get? p = some pr → pr.connReq = some cr → w.connReqs.get? cr = some c → c.dfd ≠ some d) (o : Obs) :
     WInvX x (fireD w d o) := by
   have hp : ∀ t k, Pending (fireD w d o) t k ↔ Pending w t k := fun _ _ => Iff.rfl
   constructor
@@ -328,6 +335,12 @@ theorem fireD_inv {x : Option Nat} {w : World} (h : WInvX x w) {d : Nat} (hd : d
     · exact hcr t cr c hpd a1 a2
     · exact a3 hc
   case retryLive => exact h.retryLive
+  case connReqLive =>
+    intro p pr cr c d' hp' hcq hc hd' hmem
+    simp only [fireD, List.mem_cons] at hmem
+    rcases hmem with rfl | hmem
+    · exact hcl p pr cr c hp' hcq hc hd'
+    · exact h.connReqLive p pr cr c d' hp' hcq hc hd' hmem
   case subArmed => exact h.subArmed
   case bufOk => exact h.bufOk
 
@@ -375,6 +388,7 @@ theorem dropQuiet_inv {x : Option Nat} {w : World} (h : WInvX x w) {e : Ent} (ha
   case connReqFresh => exact h.connReqFresh
   case connackOwned => exact h.connackOwned
   case retryLive => exact h.retryLive
+  case connReqLive => exact h.connReqLive
   case subArmed => intro y hy; exact h.subArmed y ((hmem y).mp hy).1
   case bufOk => exact h.bufOk
 
@@ -484,6 +498,7 @@ theorem disarm_inv {x : Option Nat} {w : World} (h : WInvX x w) {e : Ent} (he : 
   case connReqFresh => exact h.connReqFresh
   case connackOwned => intro t' cr hp; exact h.connackOwned t' cr ((hpending _ _).mp hp).1
   case retryLive => intro t' p rid hp; exact h.retryLive t' p rid ((hpending _ _).mp hp).1
+  case connReqLive => exact h.connReqLive
   case subArmed =>
     intro y hy hb ha
     by_cases hye : y = e
@@ -671,6 +686,7 @@ theorem armed_inv {x : Option Nat} {w : World} (h : WInvX x w) {e : Ent} (he : e
     rcases (hpending _ _).mp hp with ⟨hp1, _⟩ | ⟨_, hp2⟩
     · exact h.retryLive t' q rid hp1
     · injection hp2 with hq' _; subst hq'; exact ⟨ppr, hpp, hlive⟩
+  case connReqLive => exact h.connReqLive
   case subArmed =>
     intro y hy hb ha
     by_cases hye : y = e
@@ -870,6 +886,7 @@ theorem addWindow_inv {x : Option Nat} {w : World} (h : WInvX x w) (a : Nat) (bo
     rcases (hpending _ _).mp hp with hp1 | ⟨_, hp2⟩
     · exact h.retryLive t' q rid' hp1
     · injection hp2 with hq' _; subst hq'; exact ⟨ppr, hpp, hlive⟩
+  case connReqLive => exact h.connReqLive
   case subArmed =>
     intro y hy hb ha
     rcases (hmem y).mp hy with hy | rfl
@@ -1009,6 +1026,7 @@ theorem addQueue_inv {x : Option Nat} {w : World} (h : WInvX x w) (a rid : Nat) 
   case connReqFresh => intro cr c d' hc hd'; exact Nat.lt_of_lt_of_le (h.connReqFresh cr c d' hc hd') hnd
   case connackOwned => exact h.connackOwned
   case retryLive => exact h.retryLive
+  case connReqLive => exact h.connReqLive
   case subArmed =>
     intro y hy hb ha
     rcases (hmem y).mp hy with hy | rfl
